@@ -90,12 +90,30 @@ func runC19(c *Check, a *Analysis) {
 		c.Ob("R-CTX-SELECT", sc.key(fn, "select{<-call.Done, <-ctx.Done()}"), fn.Pos(), ok, ifs(!ok, "CallWithContext does not wait in a two-arm select over the call's Done channel and the caller's ctx.Done()"))
 		if ok {
 			for e := range selectArmEdges(p, fn, sel, ctxIdx) {
+				compSites := computeCompletion(p).sitesIn(fn)
+				relSites := a.Releases().sitesIn(fn)
 				w, _, bad := p.reachFromBlock(fn, e.to, func(x ssa.Instruction) bool {
 					if isCallTo(x, "PutCall", "(*Call).done") {
 						return true
 					}
 					if _, isErr := isErrorStore(x); isErr {
 						return true
+					}
+					for _, s := range compSites {
+						if s.Instr == x {
+							return true
+						}
+					}
+					for _, r := range relSites {
+						if r.Instr == x && r.Kind.Name == resCall.Name {
+							return true
+						}
+					}
+					// the abandoned call must stay registered: no table operation on this arm
+					if cc, ok := x.(*ssa.Call); ok {
+						if cal := cc.Common().StaticCallee(); cal != nil && cal.Pkg == p.RPC && touchesPending(p, cal, 0) {
+							return true
+						}
 					}
 					return false
 				}, nil, nil)
@@ -205,34 +223,7 @@ func runC19(c *Check, a *Analysis) {
 		})
 	}
 	// recycle discipline shared with C02
-	c.Rule("R-RECYCLE", "every PutCall in package rpc is dominated by a receive from that call's Done channel or the call was never registered", 4)
-	comp := computeCompletion(p)
-	for _, f := range p.Fns {
-		for _, call := range callsIn(f, "PutCall") {
-			in := call.(ssa.Instruction)
-			v := call.Common().Args[0]
-			ok, _ := recvDominates(p, in, v)
-			if !ok {
-				reg := false
-				eachInstr(f, func(x ssa.Instruction) {
-					if mu, isM := x.(*ssa.MapUpdate); isM && isLoadOf(mu.Map, "Conn", "pending") && p.sameVar(mu.Value, v) && p.canReach(x, in, nil) {
-						reg = true
-					}
-					if cc, isC := x.(ssa.CallInstruction); isC && x != in {
-						if cal := cc.Common().StaticCallee(); cal != nil {
-							for j, a2 := range cc.Common().Args {
-								if comp.registers[cal][j] && p.sameVar(a2, v) && p.canReach(x, in, nil) {
-									reg = true
-								}
-							}
-						}
-					}
-				})
-				ok = !reg
-			}
-			c.Ob("R-RECYCLE", sc.key(f, "PutCall"), p.InstrPos(in), ok, ifs(!ok, "PutCall recycles a call that may still be registered"))
-		}
-	}
+	ruleRecycle(c, a, computeCompletion(p), "R-RECYCLE")
 }
 
 // matchCAS recognises the result of atomic.CompareAndSwap* (holds on true).
@@ -806,4 +797,28 @@ func matchFieldNilAny(p *Prog, field string) condMatch {
 		}
 		return true, b.Op == token.EQL
 	}
+}
+
+// touchesPending: fn (transitively, depth ≤ 2) deletes from or stores into Conn.pending.
+func touchesPending(p *Prog, fn *ssa.Function, depth int) bool {
+	if fn == nil || fn.Blocks == nil || depth > 2 {
+		return false
+	}
+	res := false
+	eachInstr(fn, func(in ssa.Instruction) {
+		switch x := in.(type) {
+		case *ssa.MapUpdate:
+			if isLoadOf(x.Map, "Conn", "pending") {
+				res = true
+			}
+		case *ssa.Call:
+			if calleeName(x) == "builtin delete" && isLoadOf(x.Call.Args[0], "Conn", "pending") {
+				res = true
+			}
+			if cal := x.Common().StaticCallee(); cal != nil && cal.Pkg == p.RPC && cal != fn && touchesPending(p, cal, depth+1) {
+				res = true
+			}
+		}
+	})
+	return res
 }
